@@ -192,8 +192,19 @@ class World(SessionWorld):
         self.handlers.append(h)
         n0 = len(self.t.sent)
         opts = types.SubscribeOptions(details_arg="details") if h.details else None
+        # what the application does the moment its subscribe() result arrives (on Twisted that is synchronously, inside
+        # the session's processing of SUBSCRIBED): nothing / swap handlers (unsubscribe an older handler of the same
+        # subscription) / drop the new handler again at once
+        h.cont = ch.pick(("none", "unsub-other", "unsub-self"), "on-subscribed", (8, 1, 1))
         fut = self.call(self.session.subscribe, self.make_fn(h), topic, opts)
         h.fut = fut
+        if h.cont != "none":
+            import txaio
+
+            def on_subscribed(sub, h=h):
+                self.subscribe_continuation(h, sub)
+                return sub
+            txaio.add_callbacks(fut, on_subscribed, None)
         h.w = self.fw.watch(fut)
         self.settle()
         new = self.t.sent[n0:]
@@ -202,6 +213,34 @@ class World(SessionWorld):
             return
         self.pending_subs[new[0].request] = h
         self.run.log("app", "subscribe", h.token, topic, h.behaviour, h.details, h.is_async)
+
+    def attach(self, h, sid, sub):
+        """model: from the moment its subscribe() result is there, the handler is attached"""
+        if getattr(h, "attached", False):
+            return
+        h.attached = True
+        self.router_active[sid] = True
+        self.ever_held.add(sid)
+        h.sid = sid
+        h.active = True
+        h.sub = sub
+        self.model.setdefault(sid, []).append(h)
+
+    def subscribe_continuation(self, h, sub):
+        sid = getattr(sub, "id", None)
+        if sid is None or getattr(h, "gave_up", False):
+            return
+        self.attach(h, sid, sub)
+        self.run.probe("app-acts-on-subscribe-result:" + h.cont)
+        target = h
+        if h.cont == "unsub-other":
+            others = [x for x in self.model.get(sid, []) if x is not h]
+            if not others:
+                return
+            target = others[0]
+        mut = getattr(self, "dispatch_mutated", False)
+        self.unsubscribe(target, inside=True)
+        self.dispatch_mutated = mut
 
     def op_subscribe_object(self):
         from autobahn import wamp
@@ -312,11 +351,10 @@ class World(SessionWorld):
                 # router sends no EVENT on the strength of this subscription alone)
                 self.run.probe("late-SUBSCRIBED-for-abandoned-request")
                 return
-            self.router_active[sid] = True
-            self.ever_held.add(sid)
-            h.sid = sid
-            h.active = True
-            self.model.setdefault(sid, []).append(h)
+            if getattr(h, "attached", False):
+                # (the application's continuation on the subscribe() result has run already)
+                return
+            self.attach(h, sid, None)
             if getattr(h, "from_object", False):
                 st = h.gather.state()
                 if st[0] == "ok":
